@@ -1,16 +1,21 @@
 // C14 harness: the word-filter dictionary (collections/trie/hashtrie.go).
 //
 // input    = (op ...), words and texts are lists of runes
-//            (0 w) AddWord | (1 w) Remove | (2) Reset | (3 text) query | (4 w) probe
+//
+//	(0 w) AddWord | (1 w) Remove | (2) Reset | (3 text) query | (4 w) probe
+//
 // observed = one entry per op:
-//            (0 w) -> (count)   (1 w) -> (ret count)   (2) -> (count)
-//            (3 t) -> (contains exact (filtered runes))   (4 w) -> (has)
-//            a panic inside a call is recorded as the value -9
+//
+//	(0 w) -> (count)   (1 w) -> (ret count)   (2) -> (count)
+//	(3 t) -> (contains exact (filtered runes))   (4 w) -> (has)
+//	a panic inside a call is recorded as the value -9
 package main
 
 import (
+	"fmt"
 	"io"
 	"log"
+	"strings"
 
 	"qchen.fun/fatchoy/collections/trie"
 	. "verifharness/common"
@@ -163,6 +168,138 @@ func (g *gctx) text(pool [][]rune) []rune {
 	return s
 }
 
+// ---------- the property evaluated directly in Go (volume) ----------
+
+type refDict map[string]bool
+
+func isLiteral(d refDict) bool {
+	for w := range d {
+		if strings.ContainsRune(w, star) {
+			return false
+		}
+	}
+	return true
+}
+
+// checkText evaluates the literal-dictionary sentences on the implementation's answers for
+// one text; returns the failing sentence (0 = none).
+func checkText(t *trie.HashTrie, d refDict, text string) int {
+	rs := []rune(text)
+	occurs := false
+	cov := make([]bool, len(rs))
+	for i := range rs {
+		for w := range d {
+			wr := []rune(w)
+			if i+len(wr) <= len(rs) && string(rs[i:i+len(wr)]) == w {
+				occurs = true
+				for j := i; j < i+len(wr); j++ {
+					cov[j] = true
+				}
+			}
+		}
+	}
+	if t.Contains(text) != occurs {
+		return 5
+	}
+	out := []rune(t.Filter(text))
+	if len(out) != len(rs) {
+		return 6
+	}
+	for i := range rs {
+		if out[i] != rs[i] && !(cov[i] && out[i] == '*') {
+			return 7
+		}
+	}
+	for w := range d {
+		if strings.Contains(string(out), w) {
+			return 8
+		}
+	}
+	return 0
+}
+
+// sweep: every subset of `words` built in order, then every single removal, each state
+// checked on every text; membership and count are checked too.
+func sweep(out *Out, kind string, words []string, texts []string) {
+	n := len(words)
+	for mask := 0; mask < 1<<n; mask++ {
+		for rm := -1; rm < n; rm++ {
+			if rm >= 0 && mask&(1<<rm) == 0 {
+				continue
+			}
+			t := trie.NewHashTrie()
+			d := refDict{}
+			var ops []Sx
+			for i, w := range words {
+				if mask&(1<<i) != 0 {
+					t.AddWord(w)
+					d[w] = true
+					ops = append(ops, List(Int(0), sxRunes([]rune(w))))
+				}
+			}
+			if rm >= 0 {
+				ok := t.Remove(words[rm])
+				ops = append(ops, List(Int(1), sxRunes([]rune(words[rm]))))
+				out.GoChecked++
+				if !ok {
+					out.Violation("C14/prop2/"+kind, "Remove did not report whether the word was present", replayInput(ops, nil, words))
+				}
+				delete(d, words[rm])
+			}
+			out.GoChecked++
+			if t.WordsCount() != len(d) {
+				out.Violation("C14/prop3/"+kind, "WordsCount() differs from the number of words added and not since removed", replayInput(ops, nil, words))
+			}
+			for _, w := range words {
+				out.GoChecked++
+				if t.VerifHas(w) != d[w] {
+					sent := 1
+					if rm >= 0 && w != words[rm] {
+						sent = 4
+					}
+					out.Violation(fmt.Sprintf("C14/prop%d/%s", sent, kind), "membership of a word is not 'added and not since removed'", replayInput(ops, nil, words))
+				}
+			}
+			for _, x := range texts {
+				out.GoChecked++
+				if w := checkText(t, d, x); w != 0 {
+					out.Violation(fmt.Sprintf("C14/prop%d/%s", w, kind), "literal-dictionary sentence fails (Go-side sweep)", replayInput(ops, []string{x}, words))
+				}
+			}
+		}
+	}
+}
+
+// replayInput builds a case input (ops, then queries for the texts, then probes) whose
+// replay shows the failure through the Coq-evaluated checks.
+func replayInput(ops []Sx, texts []string, words []string) Sx {
+	l := append([]Sx{}, ops...)
+	for _, x := range texts {
+		l = append(l, List(Int(3), sxRunes([]rune(x))))
+	}
+	for _, w := range words {
+		l = append(l, List(Int(4), sxRunes([]rune(w))))
+	}
+	in := ListOf(l)
+	return List(in, run(in))
+}
+
+func allStrings(alpha []rune, maxLen int) []string {
+	res := []string{""}
+	prev := []string{""}
+	for l := 1; l <= maxLen; l++ {
+		var cur []string
+		for _, p := range prev {
+			for _, c := range alpha {
+				cur = append(cur, p+string(c))
+			}
+		}
+		res = append(res, cur...)
+		prev = cur
+	}
+	return res
+}
+
 func gen(a Args, out *Out) {
 	rng := NewRng(a.Seed).Fork()
 	nHist := 520
@@ -177,6 +314,9 @@ func gen(a Args, out *Out) {
 		switch kind {
 		case "literal":
 			g.alpha, g.talph = lit, all
+			if rng.Chance(1, 8) { // what invalid UTF-8 decodes to, and a rune outside the BMP
+				g.alpha, g.talph = []rune{'a', 0xFFFD, 0x1F600}, []rune{'a', 'b', star, 0xFFFD, 0x1F600}
+			}
 			if rng.Chance(1, 3) {
 				g.alpha, g.talph = []rune{'a', 'b'}, []rune{'a', 'b', 'c'}
 			}
@@ -254,5 +394,13 @@ func gen(a Args, out *Out) {
 		probeAll()
 		in := ListOf(ops)
 		out.Case(kind, removes > 0 && queries > 0, in, run(in))
+	}
+	// Go-side exhaustive sweeps over small literal dictionaries
+	ws := allStrings([]rune{'a', 'b'}, 2)[1:] // a b aa ab ba bb
+	sweep(out, "sweep", ws, allStrings([]rune{'a', 'b', 'c'}, 5))
+	sweep(out, "sweep", []string{"a", "aa", "aaa", "aab", "世", "世世", "b世"}, allStrings([]rune{'a', 'b', '世'}, 5))
+	if a.Thorough() {
+		ws3 := append(allStrings([]rune{'a', 'b'}, 2)[1:], "aaa", "aba", "abb", "bab")
+		sweep(out, "sweep", ws3, allStrings([]rune{'a', 'b', 'c'}, 7))
 	}
 }
